@@ -438,3 +438,30 @@ def bounded_c18(tier, seed):
 
 BOUNDED["C18.grid"] = bounded_c18
 PROPERTY_INFO["C18"]["bounded"] = ["C18.grid"]
+
+
+
+# ---- chunking lemma over the cascade's contract (one section): two blocks with the carried state == one block --------
+import os as _os
+
+LEM = _os.path.join(_os.path.dirname(_os.path.dirname(_os.path.abspath(__file__))), "specs", "lemmas.py")
+UNITS.append(
+    Unit(
+        id="lemma.chunking_one_section",
+        module=LEM,
+        func="lemma_chunking_one_section",
+        props=["C17"],
+        ghosts={"n": ("int", "len(x)")},
+        params={"x": ("arr", "real", ("n",)), "a_coeffs": ("arr", "real", (1, 2)), "b_coeffs": ("arr", "real", (1, 2)), "z0": ("arr", "real", (1, 1)), "a": "int"},
+        requires=["1 <= a", "a <= n - 1"],
+        loops={
+            "0": dict(label="first_block", inv=["forall(0, j, lambda i: y1[i] == Y[i])"]),
+            "1": dict(label="second_block", inv=["forall(0, j, lambda i: y2[i] == Y[a + i])"]),
+        },
+        ensures={
+            "C17.blocks_concatenate_to_the_whole": "forall(0, a, lambda i: result[2][i] == result[0][i]) and forall(0, n - a, lambda i: result[3][i] == result[0][a + i])",
+            "C17.final_state_is_the_same": "result[4][0, 0] == result[1][0, 0]",
+        },
+        opts={"callee": False},
+    )
+)
